@@ -52,7 +52,7 @@ class IndexMap:
 
 class E5(Evaluator):
     def __init__(self, mod, size_atoms=("dety_size", "detz_size")):
-        Evaluator.__init__(self, mod, inline=set())
+        Evaluator.__init__(self, mod, inline=True)
         self.size_atoms = set(size_atoms)
 
     def _np_call(self, name, args, kwargs, node):
